@@ -501,6 +501,94 @@ def stale_length_rule(rep, fn):
     return n
 
 
+def stale_remaining_rule(rep, fn):
+    """`left = end - cur` ties a remaining-size variable to a cursor.  Wherever the cursor is given a new value afterwards
+    (assignment, or its address handed to a callee), the same block also updates `left` - otherwise the loop that follows
+    walks from the new position with the size that belonged to the old one."""
+    n = 0
+    writes = {}
+    for pos, root, x, ps in fn.nodes():
+        t = None
+        if x.get("k") == "un" and ("++" in x["op"] or "--" in x["op"]):
+            t = core.strip_casts(x["e"])
+        elif x.get("k") == "bin" and x["op"].endswith("=") and x["op"] not in ("==", "!=", "<=", ">="):
+            t = core.strip_casts(x["x"])
+        elif x.get("k") == "un" and x["op"] == "&" and ps and ps[-1].get("k") in ("call", "cast"):
+            t = core.strip_casts(x["e"])
+        elif x.get("k") == "decl":
+            for v in x.get("vars", []):
+                if v.get("init") is not None:
+                    writes.setdefault(v["id"], []).append((pos, {"k": "bin", "op": "=", "x": {"k": "ref", "id": v["id"], "n": v["n"]}, "y": v["init"], "ln": x.get("ln")}))
+        if t is not None and t.get("k") == "ref" and t.get("dk") in ("local", "parm"):
+            writes.setdefault(t.get("id"), []).append((pos, x))
+    for lid, ws in writes.items():
+        for dpos, dx in ws:
+            if not (dx.get("k") == "bin" and dx["op"] == "="):
+                continue
+            y = core.strip_casts(dx["y"])
+            if not (y is not None and y.get("k") == "bin" and y.get("op") == "-"):
+                continue
+            c = core.strip_casts(y["y"])
+            if not (c.get("k") == "ref" and c.get("dk") == "local" and "t" in c and fn.unit.type(c["t"])["k"] == "ptr"):
+                continue
+            if c.get("id") in core.ref_ids(y["x"]) or c.get("id") == lid:
+                continue
+            lname = core.strip_casts(dx["x"]).get("n")
+            n += 1
+            inst = "remaining:%s/%s" % (lname, c["n"])
+            desc = "%s: '%s' (computed as end - %s at line %s) is updated wherever '%s' gets a new value afterwards" % (fn.name, lname, c["n"], dx.get("ln"), c["n"])
+            bad = None
+            lw_blocks = {}
+            for wp, wx in ws:
+                lw_blocks.setdefault(wp[0], []).append(wp[1])
+            # reads of L per block
+            lreads = {}
+            for rpos, root, rx, rps in fn.nodes():
+                if rx.get("k") == "ref" and rx.get("id") == lid:
+                    par = rps[-1] if rps else None
+                    is_lhs = par is not None and par.get("k") == "bin" and par["op"] == "=" and core.strip_casts(par["x"]) is rx
+                    if not is_lhs:
+                        lreads.setdefault(rpos[0], []).append(rpos[1])
+            for mpos, mx in writes.get(c.get("id"), []):
+                after = (mpos[0] == dpos[0] and mpos[1] > dpos[1]) or (mpos[0] != dpos[0] and mpos[0] in fn.reach_from(fn.blocks[dpos[0]].rsucc()))
+                if not after or (mpos == dpos):
+                    continue
+                # the size and the cursor are moved together when the same block writes both (in either order), and the size
+                # computed at D is known to be the current one only where D dominates the re-seat
+                if mpos[0] in lw_blocks or not fn.pos_dominates(dpos, mpos):
+                    continue
+                # only a re-seat the function does not compute itself is reported: the cursor's address handed to a callee.
+                # (Assignments such as p = find(p, ...) are too often followed by a deliberate re-use of the size variable for
+                # something else - xml_get_val_arr - to be judged here.)
+                if not (mx.get("k") == "un" and mx.get("op") == "&"):
+                    continue
+                # from M forward: is L read before it is written again?
+                def first_event(block, start_idx):
+                    ev = [(i, "w") for i in lw_blocks.get(block, []) if i > start_idx] + [(i, "r") for i in lreads.get(block, []) if i > start_idx]
+                    return min(ev)[1] if ev else None
+                fe = first_event(mpos[0], mpos[1])
+                stale_use = False
+                if fe == "r":
+                    stale_use = True
+                elif fe is None:
+                    seen, st = set(), list(fn.blocks[mpos[0]].rsucc())
+                    while st and not stale_use:
+                        b = st.pop()
+                        if b in seen:
+                            continue
+                        seen.add(b)
+                        fe2 = first_event(b, -1)
+                        if fe2 == "r":
+                            stale_use = True
+                        elif fe2 is None:
+                            st.extend(fn.blocks[b].rsucc())
+                if stale_use:
+                    bad = bad or "'%s' is given a new value at line %s and '%s' is read afterwards before it is recomputed: it still holds the size " \
+                        "that belonged to the old position" % (c["n"], mx.get("ln"), lname)
+            (rep.violated if bad else rep.proved)("R-STALE", fn, inst, desc, bad or "", dx.get("ln"))
+    return n
+
+
 COPY_CALLS_PAIRS = {"memcpy": [(0, 2), (1, 2)], "memmove": [(0, 2), (1, 2)], "memset": [(0, 2)], "memchr": [(0, 2)], "memcmp": [(0, 2), (1, 2)]}
 
 
@@ -524,6 +612,7 @@ def run_scope(rep, tier, us, exclude=(), only=None, budget_quick=45, extra_rules
             unguarded_write_rule(rep, fn)
             tail_fill_rule(rep, fn)
             stale_length_rule(rep, fn)
+            stale_remaining_rule(rep, fn)
             for r in extra_rules:
                 r(rep, fn)
     return nfn, total
